@@ -343,3 +343,7 @@ mod tests {
         join.abort();
     }
 }
+
+#[cfg(all(test, pendulum_project_ntpd_rs_verif))]
+#[path = "/verif/harness/ntpd/hook_daemon__server.rs"]
+mod verif_hook;
